@@ -195,6 +195,8 @@ def explore_task(task, seed, runner, sig=None):
                     res["violations"].append({
                         "key": key, "msg": msg, "family": task["family"], "cfg": cfg,
                         "entry": entry, "choices": list(ch.choices()), "labels": ch.labels(),
+                        "extra": {k: task[k] for k in task
+                                  if k not in ("cfg", "entry", "family", "index", "weight")},
                         "trace": jsonable(tr)})
         del end
 
